@@ -544,6 +544,9 @@ func c02Unhex(s string) []byte {
 // c02ImplTable returns the implementation's dynamic table, newest first.
 func c02ImplTable(d *Decoder) []c02RefField {
 	ents := d.dynTab.table.ents
+	if len(ents) == 0 {
+		return nil
+	}
 	out := make([]c02RefField, 0, len(ents))
 	for i := len(ents) - 1; i >= 0; i-- {
 		out = append(out, c02RefField{Name: ents[i].Name, Value: ents[i].Value})
